@@ -28,7 +28,8 @@ fn main() {
     if prop == "C04" || prop == "C16" {
         ops::c04_corpus(&mut out);
     }
-    if prop == "C14" {
+    if prop == "IO" {
+    } else if prop == "C14" {
         for e in &catalogue::zst_catalogue() {
             let mut ge = g.fork();
             (e.run)(prop, &mut ge, &budget, &mut out);
@@ -52,6 +53,9 @@ fn main() {
                 }
             }
         }
+    }
+    if prop == "IO" {
+        script::io_ops(&mut g, if thorough { 40000 } else { 4000 }, &mut out);
     }
     if prop == "C11" {
         script::c11_large(&mut g, &mut out, thorough);
